@@ -7,6 +7,7 @@ import (
 	"hash/fnv"
 	"hash/maphash"
 	"io"
+	"strings"
 
 	"github.com/ulikunitz/lz"
 	"verif/mc/engine"
@@ -80,6 +81,10 @@ type Oracle struct {
 	// readfrom, shrink, reset.
 	Op  func(h *Hist, name string)
 	End func(h *Hist)
+	// Panic is called when a call into the parser panicked. Without it the
+	// panic is recovered and counted (panics are the business of the checks
+	// whose property forbids them: C15, C16), the execution ends there.
+	Panic func(h *Hist, r any)
 }
 
 // Hist is the state of one execution: the real parser plus the model.
@@ -281,6 +286,29 @@ func (r *sliceReader) Read(p []byte) (int, error) {
 // RunParserHist executes one history. It must be a deterministic function of
 // (h.PC, h.Input, h.Menu, chooser).
 func RunParserHist(h *Hist, orc *Oracle) {
+	defer func() {
+		r := recover()
+		if r == nil {
+			return
+		}
+		// harness errors (bad configuration, replay divergence) are not the library's
+		if _, ok := r.(engine.ReplayDivergence); ok {
+			panic(r)
+		}
+		if e, ok := r.(error); ok && strings.HasPrefix(e.Error(), "harness:") {
+			panic(r)
+		}
+		h.St.Pruned++
+		if orc.Panic != nil {
+			orc.Panic(h, r)
+			return
+		}
+		h.St.Add("panics_recovered_and_left_to_C16", 1)
+	}()
+	runParserHist(h, orc)
+}
+
+func runParserHist(h *Hist, orc *Oracle) {
 	c := h.C
 	if h.cfgFor != h.PC.JSON || h.cfgVal == nil {
 		h.cfgVal = h.PC.Config()
